@@ -73,6 +73,9 @@ def _val(n: int, kind: str, mi: int) -> float:
     return 0.0 if (n + mi) % 7 == 0 else n + (mi + 1) / 100.0
 
 
+_MSG_TZ_MIN = [0]
+
+
 def _mkmsg(kind: str, n: int, cid: int | None = None) -> Any:
     import dataclasses
 
@@ -82,6 +85,11 @@ def _mkmsg(kind: str, n: int, cid: int | None = None) -> Any:
     from .. import batdata
 
     ts = EPOCH + timedelta(seconds=n)
+    if _MSG_TZ_MIN[0]:
+        # the same instant, written in the zone the device / gateway stamps its messages in
+        from datetime import timezone as _tz
+
+        ts = ts.astimezone(_tz(timedelta(minutes=_MSG_TZ_MIN[0])))
     z = (0.0, 0.0, 0.0)
     if kind == "meter":
         m: Any = MeterData(component_id=CID, timestamp=ts, active_power=0.0, active_power_per_phase=z, reactive_power=0.0,
@@ -131,7 +139,8 @@ def gen(rng: Any, tier: str, i: int) -> Any:
     for _ in range(rng.randint(1, 8)):
         subs.append([rng.choice([0, 0, rng.randint(0, nmsg - 3)]), rng.choice(["a", "b"]), rng.randrange(nm),
                      rng.random() < 0.3, rng.random() < 0.2, rng.choice([0, 0, 1, 3, 20]),
-                     rng.choice([None, None, None, 0, 1]),  # start_time of the request: part of the stream's identity
+                     # start_time of the request: part of the stream's identity (2: the instant of 0, written in another zone)
+                     rng.choice([None, None, None, 0, 1, 2]),
                      rng.random() < 0.12])  # followed by a request for a metric this kind of component does not have
     if rng.random() < 0.4 and len(subs) >= 2:
         at = subs[0][0]
@@ -147,6 +156,7 @@ def gen(rng: Any, tier: str, i: int) -> Any:
         times = sorted({x[0] for x in subs})
         churn_at = rng.choice(times[1:])
     return {"kind": kind, "nmsg": nmsg, "subs": subs, "typing_churn_before_msg": churn_at,
+            "msg_tz_min": rng.choice([0, 0, 0, 120, -300, 345]),
             "yields": [rng.choice([0, 0, 1, 2, 10]) for _ in range(nmsg)],
             "pauses": [rng.random() < 0.2 for _ in range(nmsg)]}
 
@@ -187,6 +197,7 @@ async def _drive(case: dict[str, Any], out: dict[str, Any]) -> None:
     api.rx_limit = 500
     connection_manager._CONNECTION_MANAGER = SimpleNamespace(component_graph=None, api_client=api)  # noqa: SLF001
     mets = _metrics(kind)
+    _MSG_TZ_MIN[0] = int(case.get("msg_tz_min") or 0)
     reg = ChannelRegistry(name="reg")
     reqc = Broadcast(name="req")
     actor = DataSourcingActor(reqc.new_receiver(limit=200), reg)
@@ -202,7 +213,12 @@ async def _drive(case: dict[str, Any], out: dict[str, Any]) -> None:
         while si < len(subs) and subs[si][0] == n:
             _, ns, mi, dup, unknown, yields = subs[si][:6]
             st = subs[si][6] if len(subs[si]) > 6 else None
-            req = ComponentMetricRequest(ns, CID, mets[mi], None if st is None else EPOCH - timedelta(hours=1 + st))
+            start = None if st is None else EPOCH - timedelta(hours=1 + st)
+            if st == 2:
+                from datetime import timezone as _tz
+
+                start = (EPOCH - timedelta(hours=1)).astimezone(_tz(timedelta(hours=2)))
+            req = ComponentMetricRequest(ns, CID, mets[mi], start)
             name = req.get_channel_name()
             if name not in streams:
                 rx = reg.get_or_create(Sample[Quantity], name).new_receiver(limit=1000)
@@ -325,6 +341,10 @@ def check(case: dict[str, Any], rec: Any) -> None:
         rec.bucket("subscription-before-first-message")
     if any(s[0] > 0 for s in subs):
         rec.bucket("subscription-between-messages")
+    if case.get("msg_tz_min"):
+        rec.bucket("messages-stamped-in-a-non-utc-zone")
+    if any(len(x) > 6 and x[6] == 2 for x in subs) and any(len(x) > 6 and x[6] == 0 for x in subs):
+        rec.bucket("requests-whose-start-times-are-one-instant-in-two-zones")
     if case.get("typing_churn_before_msg") is not None:
         rec.bucket("other-generic-types-evaluated-between-two-subscriptions")
     if any(s[3] for s in subs):
